@@ -7,6 +7,7 @@ import (
 	"fmt"
 	"io"
 	"log"
+	"net"
 	"strings"
 	"testing"
 	"time"
@@ -166,6 +167,18 @@ func (r *fragReader) Read(p []byte) (int, error) {
 	return n, nil
 }
 
+// connReader: the scripted fragments behind the net.Conn interface, for applications that call
+// ReadMessage on a connection of their own (as examples/bare does).
+type connReader struct{ *fragReader }
+
+func (connReader) Write(b []byte) (int, error)      { return len(b), nil }
+func (connReader) Close() error                     { return nil }
+func (connReader) LocalAddr() net.Addr              { return memnet.Addr{Net: "tcp", Str: "10.0.0.1:3868"} }
+func (connReader) RemoteAddr() net.Addr             { return memnet.Addr{Net: "tcp", Str: "10.0.0.2:40000"} }
+func (connReader) SetDeadline(time.Time) error      { return nil }
+func (connReader) SetReadDeadline(time.Time) error  { return nil }
+func (connReader) SetWriteDeadline(time.Time) error { return nil }
+
 // sizedReader wraps an in-memory reader that reports how much it still holds (Len), counting
 // what has been consumed from that.
 type sizedReader interface {
@@ -191,6 +204,8 @@ func runDirect(c Case) *ev.Failure {
 	}
 	buffered := false
 	switch c.Consumer {
+	case "net.Conn": // ReadMessage called by the application on a bare connection
+		rd = connReader{r}
 	case "bufio.Reader": // what every TCP / TLS connection of the library hands to ReadMessage
 		rd, buffered = bufio.NewReader(r), true
 	case "bufio.Reader16": // the smallest buffer bufio allows: smaller than a header
@@ -414,7 +429,7 @@ func genCase(t *rapid.T) Case {
 	default:
 		c.Tail = Tail{Kind: "short-length", Declared: rapid.IntRange(0, 19).Draw(t, "declared"), Trailing: rapid.IntRange(0, 120).Draw(t, "trailing")}
 	}
-	c.Consumer = rapid.SampledFrom([]string{"direct", "direct", "conn", "conn", "bytes.Reader", "bytes.Buffer", "strings.Reader", "bufio.Reader", "bufio.Reader16"}).Draw(t, "consumer")
+	c.Consumer = rapid.SampledFrom([]string{"direct", "direct", "conn", "conn", "bytes.Reader", "bytes.Buffer", "strings.Reader", "bufio.Reader", "bufio.Reader16", "net.Conn"}).Draw(t, "consumer")
 	c.EOFWithData = rapid.IntRange(0, 2).Draw(t, "eof-with-data") == 0
 	c.NoPad = rapid.IntRange(0, 3).Draw(t, "no-pad") == 0
 	if c.Consumer == "conn" && rapid.Bool().Draw(t, "answer") {
@@ -446,7 +461,7 @@ func genCase(t *rapid.T) Case {
 
 var prop = ev.Register(&ev.Prop[Case]{
 	ID: "C05", Name: "stream",
-	Rule: "1..6 messages with bodies around the 1 KiB pooled buffer (996..1040), tiny, ~4 KiB, ~70 KB and (rarely) 1..8 MiB, concatenated; tail = clean end / truncation 1..79 bytes into a further message / a header declaring length 0..19 followed by 0..120 bytes that look like further messages; fragmentation = one segment / runs of 1-byte reads / boundary-sized fragments; 1 in 4 cases with every message's last AVP unpadded and the declared length exact (not a multiple of 4); consumed by ReadMessage in a loop on a scripted reader (which counts the bytes asked for), on bytes.Reader / bytes.Buffer / strings.Reader (which know how much they hold), through a bufio.Reader of the default and of the smallest size, and by the library's connection loop, whose handler optionally answers every message while one transport write is refused with a temporary error; non-trivial = >=2 messages and a read boundary strictly inside a message",
+	Rule: "1..6 messages with bodies around the 1 KiB pooled buffer (996..1040), tiny, ~4 KiB, ~70 KB and (rarely) 1..8 MiB, concatenated; tail = clean end / truncation 1..79 bytes into a further message / a header declaring length 0..19 followed by 0..120 bytes that look like further messages; fragmentation = one segment / runs of 1-byte reads / boundary-sized fragments; 1 in 4 cases with every message's last AVP unpadded and the declared length exact (not a multiple of 4); consumed by ReadMessage in a loop on a scripted reader (which counts the bytes asked for), on bytes.Reader / bytes.Buffer / strings.Reader (which know how much they hold), through a bufio.Reader of the default and of the smallest size, on a bare net.Conn (scripted; counts the bytes asked for), and by the library's connection loop, whose handler optionally answers every message while one transport write is refused with a temporary error; non-trivial = >=2 messages and a read boundary strictly inside a message",
 	Gen:  genCase, Run: runCase, Classify: classify,
 })
 
@@ -461,7 +476,7 @@ func TestC05ExhaustiveSplits(t *testing.T) {
 		{Fillers: []int{5}, Tail: Tail{Kind: "short-length", Declared: 0, Trailing: 8}},
 	}
 	prop.Enumerate(t, true, func(yield func(Case) bool) {
-		for _, consumer := range []string{"direct", "conn"} {
+		for _, consumer := range []string{"direct", "conn", "net.Conn"} {
 			for _, b := range bases {
 				_, all, _ := b.stream()
 				for i := 1; i < len(all); i++ {
